@@ -9,7 +9,7 @@ var c37CoqImports = []string{"Check.C37"}
 
 const c37CoqRun = "Check.C37.run"
 
-var c37Modelled = map[string]bool{"rtpdump": true, "h264": true, "h264sei": true, "h265": true, "h265sei": true}
+var c37Modelled = map[string]bool{"ivf": true, "oggnew": true, "oggcrc": true, "oggnocrc": true, "opushead": true, "opustags": true, "rtpdump": true, "h264": true, "h264sei": true, "h265": true, "h265sei": true}
 
 func c37CoqModel(in c37In) string {
 	if !c37Modelled[in.Reader] {
